@@ -217,3 +217,18 @@ claim(
     '',
     'definition-agreement rules over the selector constants + effect rules + finite-domain decision table',
 )
+
+claim(
+    'C19',
+    'Decided: (R1) the isinstance tuple of is_special_string covers every subclass of PreformattedString of the '
+    'installed bs4 (read from its sources) and no plain-text subclass, and is_content_string is navigable AND NOT '
+    'special (as necessary conditions of a true result); (R2) every text reader (get_text, get_own_text, match_empty, '
+    'match_root, find_bidi, the textarea branch of match_dir) consults that classification, the two collectors filter '
+    'every node; (R3) descendant text is "".join of the descendants\' content strings, own text is the unjoined list of '
+    'direct child strings tested one by one, both with no_iframe=self.is_html; (R4) between the match group and the IR '
+    'a needle undergoes only [1:-1] (quote removal) and exactly one css_unescape, in string mode iff quoted; (R5) :empty '
+    'tests text with the complement of the CSS whitespace class. Not decided: substring results over all trees and the '
+    'resume-point navigation of the iframe skipping in get_descendants.',
+    '',
+    'class-hierarchy exhaustiveness vs bs4 sources + shape rules + string provenance',
+)
